@@ -355,7 +355,8 @@ func c38Main() {
 	}
 	e := newC38Env(seed*15485863 + 38)
 	enc := json.NewEncoder(os.Stdout)
-	_ = enc.Encode(map[string]any{"kind": "consts38", "configs": c38Configs})
+	_ = enc.Encode(map[string]any{"kind": "consts38", "configs": c38Configs, "state_online": netmaprpc.NodeStateOnline.Int64(),
+		"state_maintenance": netmaprpc.NodeStateMaintenance.Int64()})
 	for i := 0; i < na; i++ {
 		_ = enc.Encode(e.admitCase())
 	}
